@@ -70,6 +70,17 @@ def pre_hook(world, gen_, mons):
                     gen_.count += 1
                     gen_.last_kind = "whale_donation"
                     return w_.op_donate(who, p.addr, asset, amt), []
+        if k < 0.33:
+            # the owner re-registers a native denom with decimals far from the other asset's (any u8 is accepted): the pair's
+            # decimal difference then exceeds every power of ten a u64 / u128 can hold; liquidity must still come out
+            w_ = gen_.w
+            nat = gen_.rng.choice(w_.natives)
+            dec = gen_.rng.choice([19, 20, 26, 30, 38, 39, 77, 255])
+            gen_.count += 1
+            gen_.last_kind = "far_decimals"
+            return {"kind": "add_decimals", "actor": "owner", "contract": w_.factory,
+                    "msg": {"add_native_token_decimals": {"denom": nat[1], "decimals": dec}}, "funds": [],
+                    "sem": {"denom": nat[1], "decimals": dec, "funds": []}}, []
         op, q = orig_next()
         gen_.last_kind = op["kind"]
         return op, q
